@@ -30,6 +30,13 @@ class ShapeError(Exception):
     pass
 
 
+def _twin(text):
+    """the same PEP 440 version with one more trailing zero release segment: 1.0 -> 1.0.0, 2.0a1 -> 2.0.0a1, 1!0.5 -> 1!0.5.0"""
+    import re
+    m = re.match(r"^((?:\d+!)?\d+(?:\.\d+)*)(.*)$", text)
+    return m.group(1) + ".0" + m.group(2)
+
+
 ACTIVE_POOL = None   # None = opaque order-only tokens; else a tuple of version texts (fallback domain)
 # pools of concrete versions for the fallback domain; the first K (sorted) are used.  Each pool packs the coincidences a
 # shape-dependent comparison could key on: same release with dev/pre/final/post, trailing zeros, digit growth, epochs.
@@ -77,6 +84,15 @@ class SpecDomain:
         # operand list: (label, vec, obj)
         self.operands = [(self.show(self.objs[v]), v, self.objs[v]) for v in self.vecs]
         self.operands.append(("AnySpecifier()", self.full, self.anyspec))
+        if pool is not None:
+            # twins: the same versions spelled with an extra trailing ".0" release segment (equal under PEP 440, different text /
+            # release tuple) — operands built from them must behave exactly like the primary ones
+            from . import pkgmodel
+            self.V2 = [pkgmodel.Version(_twin(v.vstr())) for v in self.V]
+            for v in self.vecs:
+                if v not in (self.full, self.none):
+                    o = self.build_from_vec(v, self.V2)
+                    self.operands.append((self.show(o), v, o))
 
     def ix(self, tok):
         """position of a bound token in the domain's total order"""
@@ -162,9 +178,10 @@ class SpecDomain:
             return None
         return f"unexpected class {s.cls.name}"
 
-    def build_from_vec(self, vec):
+    def build_from_vec(self, vec, toks=None):
         """canonical object for a membership vector, built through the interpreted constructors."""
         it = self.it
+        V = toks or self.V
         runs, p = [], 0
         while p < self.NPTS:
             if vec[p]:
@@ -182,14 +199,14 @@ class SpecDomain:
             kw = {}
             if p > 0:
                 if p % 2 == 1:
-                    kw.update(min=self.V[(p - 1) // 2], include_min=True)
+                    kw.update(min=V[(p - 1) // 2], include_min=True)
                 else:
-                    kw.update(min=self.V[p // 2 - 1], include_min=False)
+                    kw.update(min=V[p // 2 - 1], include_min=False)
             if q < self.NPTS - 1:
                 if q % 2 == 1:
-                    kw.update(max=self.V[(q - 1) // 2], include_max=True)
+                    kw.update(max=V[(q - 1) // 2], include_max=True)
                 else:
-                    kw.update(max=self.V[q // 2], include_max=False)
+                    kw.update(max=V[q // 2], include_max=False)
             rs.append(it.construct(self.Range, [], kw))
         if len(rs) == 1:
             return rs[0]
